@@ -65,6 +65,17 @@ def events(rng, homs, thorough):
             yield "ad", {"a": a}, 1 / s, (lambda A=A: Twist3(A).ad()), "Twist3.ad"
         for w in (1, -3, 7):
             yield "skew1", {"a": [w]}, 1 / s, (lambda w=w, s=s: b.skew(w * s)), "base.skew(1)"
+    # norm and related helpers on vectors of length 1, 3 and 6 with integer norms, magnitudes 1e-9 .. 1e6
+    pyth = [((5,), 5), ((-3,), 3), ((3, 4, 0), 5), ((1, 2, 2), 3), ((2, -3, 6), 7), ((-2, 10, 11), 15), ((0, 0, -4), 4),
+            ((1, 1, 1, 1, 0, 0), 2), ((2, 3, 6, 0, 0, 0), 7), ((1, -1, 1, 1, 1, 2), 3), ((2, 2, -2, 2, 3, 0), 5), ((0, 0, 0, 0, 0, 1), 1)]
+    for s in (1e-9, 1e-8, 1e-6, 1e-3, 1.0, 1e3, 1e6):
+        for a, nn in pyth:
+            A = np.array(a, dtype=float) * s
+            yield "normsq", {"a": a}, 1 / (s * s), (lambda A=A: [b.normsq(A)]), "base.normsq"
+            yield "norm", {"a": a, "n": nn}, 1 / s, (lambda A=A: [b.norm(A)]), "base.norm"
+            yield "unitvec", {"a": a, "n": nn}, float(nn), (lambda A=A: b.unitvec(A)), "base.unitvec"
+            yield "unitvec_norm", {"a": a, "n": nn}, None, \
+                (lambda A=A, nn=nn, s=s: np.r_[np.asarray(b.unitvec_norm(A)[0], dtype=float) * nn, b.unitvec_norm(A)[1] / s]), "base.unitvec_norm"
     for a in vecs6:
         M = np.eye(4) + b.skewa(np.array(a, dtype=float))
         yield "tr2delta", {"a": [int(x) for x in M.ravel()]}, 1.0, (lambda M=M: b.tr2delta(M)), "base.tr2delta"
